@@ -167,9 +167,14 @@ package resharing
 //@   modifies *
 //@   ensures [C04.a-continuing-member-keeps-its-old-share] (rsNew(round.ReSharingParameters) && old(round.input.Xi) != nil && old(round.input.Xi) != old(round.temp.newXi)) ==> val(old(round.input.Xi)) == old(val(round.input.Xi))
 //@   ensures [C04.key-data-emitted-exactly-once-and-only-on-success] (result == nil ==> sent(old(round.end)) == old(sent(round.end)) + 1) && (result != nil ==> sent(old(round.end)) == old(sent(round.end)))
-//@   loop 0 invariant rsNew(round.ReSharingParameters) && round.started && sent(round.end) == old(sent(round.end)) && len(round.save.PaillierPKs) == rsNewN(round) && len(ContextI) <= 4104
+//@   loop 0 invariant [new-member-state-still-holds] (forall j in 0..rsNewN(round) :: (j != round.ReSharingParameters.Parameters.partyID.Index ==> (rs2m1slot(round.temp.dgRound2Message1s[j]) && rs4m1slot(round.temp.dgRound4Message1s[j]))))
+//@   loop 0 invariant round.started
+//@   loop 0 invariant sent(round.end) == old(sent(round.end))
+//@   loop 0 invariant len(round.save.PaillierPKs) == rsNewN(round)
+//@   loop 0 invariant len(ContextI) <= 4104
 //@   loop 0 invariant forall k in 0..$iter :: (k != i ==> (round.save.PaillierPKs[k] != nil && round.save.PaillierPKs[k].N != nil))
-//@   loop 1 invariant rsNew(round.ReSharingParameters) && round.started && sent(round.end) == old(sent(round.end)) && len(round.save.PaillierPKs) == rsNewN(round) && len(ContextI) <= 4104
+//@   loop 1 invariant [new-member-state-still-holds] (forall j in 0..rsNewN(round) :: (j != round.ReSharingParameters.Parameters.partyID.Index ==> (rs2m1slot(round.temp.dgRound2Message1s[j]) && rs4m1slot(round.temp.dgRound4Message1s[j]))))
+//@   loop 1 invariant round.started && sent(round.end) == old(sent(round.end)) && len(round.save.PaillierPKs) == rsNewN(round) && len(ContextI) <= 4104
 //@   loop 1 invariant forall k in 0..rsNewN(round) :: (k != i ==> (round.save.PaillierPKs[k] != nil && round.save.PaillierPKs[k].N != nil))
 
 //@ define rs1full(m) = (!isnil(m) && istype(msgcontent(m), "*ecdsa/resharing.DGRound1Message") && cast(msgcontent(m), "*ecdsa/resharing.DGRound1Message") != nil)
@@ -226,6 +231,7 @@ package resharing
 //@   requires [rounds-1-to-3-complete] rsNew(round.ReSharingParameters) ==> (rsOldN(round) >= 1 && (forall j in 0..rsOldN(round) :: (ecRs1full(round.temp.dgRound1Messages[j]) && ecRs3m1(round.temp.dgRound3Message1s[j]) && ecRs3m2(round.temp.dgRound3Message2s[j]))) && (forall j in 0..rsNewN(round) :: ecRs2m1(round.temp.dgRound2Message1s[j])))
 //@   requires [new-member-state] rsNew(round.ReSharingParameters) ==> (len(round.temp.ssid) <= 4096 && round.save.ECDSAPub != nil && wfPoint(round.save.ECDSAPub) && len(round.save.NTildej) == rsNewN(round) && len(round.save.H1j) == rsNewN(round) && len(round.save.H2j) == rsNewN(round) && arr(round.save.NTildej) != arr(round.save.H1j) && arr(round.save.NTildej) != arr(round.save.H2j) && arr(round.save.H1j) != arr(round.save.H2j) && round.save.LocalPreParams.PaillierSK != nil && round.save.LocalPreParams.PaillierSK.PublicKey.N != nil && val(round.save.LocalPreParams.PaillierSK.PublicKey.N) > 0 && bitlen(val(round.save.LocalPreParams.PaillierSK.PublicKey.N)) <= 2100 && round.save.LocalPreParams.PaillierSK.P != nil && round.save.LocalPreParams.PaillierSK.Q != nil && val(round.save.LocalPreParams.PaillierSK.P) >= 0 && val(round.save.LocalPreParams.PaillierSK.Q) >= 0 && round.save.NTildej[round.ReSharingParameters.Parameters.partyID.Index] != nil && round.save.H1j[round.ReSharingParameters.Parameters.partyID.Index] != nil && round.save.H2j[round.ReSharingParameters.Parameters.partyID.Index] != nil)
 //@   requires [new-ids-nonzero-modulo-the-order] forall k in 0..rsNewN(round) :: keyOf(round.ReSharingParameters.newParties.partyIDs[k]) % secpN != 0
+//@   requires [save-lists-are-not-the-public-key's-coordinate-pair] rsNew(round.ReSharingParameters) ==> (arr(round.save.ECDSAPub.coords) != arr(round.save.NTildej) && arr(round.save.ECDSAPub.coords) != arr(round.save.H1j) && arr(round.save.ECDSAPub.coords) != arr(round.save.H2j))
 //@   modifies round.number, round.started, round.oldOK[*], round.newOK[*], round.save.NTildej[*], round.save.H1j[*], round.save.H2j[*], round.temp.newXi, round.temp.newKs, round.temp.newBigXjs, round.temp.dgRound4Message2s[*], sent(round.out), allfield("crypto.ECPoint", "curve")
 //@   ensures [C04.old-share-intact-before-the-final-round] ecShareIntact(round)
 //@   site (*crypto.ECPoint).Equals#0 : [C04.the-summed-constant-commitment-is-compared-with-the-announced-public-key] $arg0 == Vc[0] && $arg1 == round.save.ECDSAPub
@@ -233,8 +239,15 @@ package resharing
 //@   loop 0 invariant forall k in 0..$iter :: bitlen(rsNT(round.temp.dgRound2Message1s[k])) == 2048
 //@   loop 1 invariant rsNew(round.ReSharingParameters) && round.started && i == round.ReSharingParameters.Parameters.partyID.Index && (forall k in 0..rsNewN(round) :: bitlen(rsNT(round.temp.dgRound2Message1s[k])) == 2048)
 //@   loop 2 invariant rsNew(round.ReSharingParameters) && round.started && i == round.ReSharingParameters.Parameters.partyID.Index && (forall k in 0..rsNewN(round) :: bitlen(rsNT(round.temp.dgRound2Message1s[k])) == 2048)
+//@   loop 2 invariant [public-key-untouched] round.save.ECDSAPub == old(round.save.ECDSAPub) && round.save.ECDSAPub != nil && wfPoint(round.save.ECDSAPub)
 //@   loop 2 invariant forall k in 0..$iter :: (k != i ==> (round.save.NTildej[k] != nil && val(round.save.NTildej[k]) > 0 && bitlen(val(round.save.NTildej[k])) == 2048 && round.save.H1j[k] != nil && round.save.H2j[k] != nil))
-//@   loop 3 invariant rs4NT(round, i) && round.save.ECDSAPub != nil && wfPoint(round.save.ECDSAPub) && rsNew(round.ReSharingParameters) && round.started && 0 <= j && j <= len(vjc) && len(vjc) == rsOldN(round) && fresh(vjc) && newXi != nil && modQ != nil && !fresh(modQ) && val(modQ) == secpN && ecShareIntact(round) && i == round.ReSharingParameters.Parameters.partyID.Index
+//@   loop 3 invariant rs4NT(round, i)
+//@   loop 3 invariant round.save.ECDSAPub != nil && wfPoint(round.save.ECDSAPub)
+//@   loop 3 invariant rsNew(round.ReSharingParameters)
+//@   loop 3 invariant round.started && 0 <= j && j <= len(vjc) && len(vjc) == rsOldN(round) && fresh(vjc) && newXi != nil
+//@   loop 3 invariant modQ != nil && !fresh(modQ) && val(modQ) == secpN
+//@   loop 3 invariant ecShareIntact(round)
+//@   loop 3 invariant i == round.ReSharingParameters.Parameters.partyID.Index
 //@   loop 3 invariant forall k in 0..j :: ecRs4row(round, vjc[k])
 //@   loop 4 invariant rs4NT(round, i) && round.save.ECDSAPub != nil && wfPoint(round.save.ECDSAPub) && rsNew(round.ReSharingParameters) && round.started && 0 <= c && c <= round.ReSharingParameters.newThreshold + 1 && len(vjc) == rsOldN(round) && fresh(vjc) && len(Vc) == round.ReSharingParameters.newThreshold + 1 && fresh(Vc) && newXi != nil && modQ != nil && !fresh(modQ) && val(modQ) == secpN && ecShareIntact(round) && i == round.ReSharingParameters.Parameters.partyID.Index
 //@   loop 4 invariant (forall k in 0..len(vjc) :: ecRs4row(round, vjc[k])) && (forall k in 0..len(vjc) :: arr(vjc[k]) != arr(Vc))
@@ -244,7 +257,9 @@ package resharing
 //@   loop 5 invariant forall k in 0..c+1 :: (validPoint(Vc[k]) && Vc[k].curve == round.ReSharingParameters.Parameters.ec)
 //@   loop 6 invariant rs4NT(round, i) && wfIDs(round.ReSharingParameters.Parameters.parties.partyIDs) && wfIDs(round.ReSharingParameters.newParties.partyIDs) && (forall k in 0..rsNewN(round) :: keyOf(round.ReSharingParameters.newParties.partyIDs[k]) % secpN != 0) && rsNew(round.ReSharingParameters) && round.started && 0 <= j && j <= rsNewN(round) && len(Vc) == round.ReSharingParameters.newThreshold + 1 && fresh(Vc) && fresh(newKs) && len(newKs) == j && cap(newKs) == rsNewN(round) && fresh(newBigXjs) && len(newBigXjs) == rsNewN(round) && fresh(paiProofCulprits) && newXi != nil && modQ != nil && !fresh(modQ) && val(modQ) == secpN && ecShareIntact(round) && i == round.ReSharingParameters.Parameters.partyID.Index
 //@   loop 6 invariant forall k in 0..len(Vc) :: (validPoint(Vc[k]) && Vc[k].curve == round.ReSharingParameters.Parameters.ec)
+//@   loop 6 invariant [key-list-is-not-a-coordinate-pair] forall k in 0..len(Vc) :: arr(Vc[k].coords) != arr(newKs)
 //@   loop 7 invariant rs4NT(round, i) && wfIDs(round.ReSharingParameters.Parameters.parties.partyIDs) && wfIDs(round.ReSharingParameters.newParties.partyIDs) && (forall k in 0..rsNewN(round) :: keyOf(round.ReSharingParameters.newParties.partyIDs[k]) % secpN != 0) && rsNew(round.ReSharingParameters) && round.started && 0 <= j && j < rsNewN(round) && 1 <= c && c <= round.ReSharingParameters.newThreshold + 1 && len(Vc) == round.ReSharingParameters.newThreshold + 1 && fresh(Vc) && fresh(newKs) && len(newKs) == j + 1 && cap(newKs) == rsNewN(round) && fresh(newBigXjs) && len(newBigXjs) == rsNewN(round) && fresh(paiProofCulprits) && newXi != nil && modQ != nil && !fresh(modQ) && val(modQ) == secpN && ecShareIntact(round) && i == round.ReSharingParameters.Parameters.partyID.Index
 //@   loop 7 invariant forall k in 0..len(Vc) :: (validPoint(Vc[k]) && Vc[k].curve == round.ReSharingParameters.Parameters.ec)
+//@   loop 7 invariant [key-list-is-not-a-coordinate-pair] forall k in 0..len(Vc) :: arr(Vc[k].coords) != arr(newKs)
 //@   loop 7 invariant kj != nil && val(kj) == keyOf(Pj) && z != nil && val(z) >= 0 && val(z) % secpN != 0 && Pj != nil && Pj == round.ReSharingParameters.newParties.partyIDs[j] && validPoint(newBigXj) && newBigXj.curve == round.ReSharingParameters.Parameters.ec
 //@   loop 8 invariant rs4NT(round, i) && wfIDs(round.ReSharingParameters.Parameters.parties.partyIDs) && wfIDs(round.ReSharingParameters.newParties.partyIDs) && rsNew(round.ReSharingParameters) && round.started && ecShareIntact(round) && i == round.ReSharingParameters.Parameters.partyID.Index && Pi == round.ReSharingParameters.Parameters.partyID && (forall k in 0..rsNewN(round) :: (k != i ==> (round.save.NTildej[k] != nil && round.save.H1j[k] != nil && round.save.H2j[k] != nil)))
